@@ -3,7 +3,8 @@
 
    case:  c17 <kind> <offlo> <offhi> <lalo> <lahi> <response> <signal>
           kind: w (wire response), p (pad response), x (other); floats are 16-hex-digit bit patterns
-   obs:   for every offset in offlo..=offhi, look_ahead in lalo..=lahi (offsets outer):
+   obs:   outcome class ("ok", or "panic" if any of the calls below panicked), then
+          for every offset in offlo..=offhi, look_ahead in lalo..=lahi (offsets outer):
             "<off>.<la>=" nn ;  then "ls=" ls_deconvolution over the same grid ;
             kind p: "pad=" pad_deconvolution ; kind w: "wire=" ls over 0..=1 x 3..=12
           nn  = "panic" | <residual> "/" vec ;  vec = <len> ":" i "=" bits "," ... (samples that are not +0.0)
@@ -69,7 +70,13 @@ let handle (line : string) : string =
       Buffer.add_string b ("ls=" ^ ls_obs (ls_deconv_f sg resp (nats (irange offlo offhi)) (nats (irange lalo lahi))));
       if kind = "p" then Buffer.add_string b (" pad=" ^ ls_obs (pad_deconv_f sg resp));
       if kind = "w" then Buffer.add_string b (" wire=" ^ ls_obs (wire_deconv_f sg resp));
-      Buffer.contents b
+      let s = Buffer.contents b in
+      let has_panic =
+        let n = String.length s in
+        let rec go i = i + 5 <= n && (String.sub s i 5 = "panic" || go (i + 1)) in
+        go 0
+      in
+      (if has_panic then "panic " else "ok ") ^ s
   | tag :: _ when String.length tag >= 3 && String.sub tag 0 3 = "rel" -> "holds"
   | _ -> "unknown-case"
 
